@@ -591,6 +591,36 @@ func main() {
 		emitDec(next("a"), "dagjson", "basic", defJ, []byte(deep))
 		emitDec(next("a"), "dagcbor", "basic", defC, []byte(strings.Repeat("\x81", 10+i*200)+"\x00"))
 	}
+	// --- depth accounting must not be influenced by scalars seen earlier in the document: k links /
+	// bytes / strings / empty containers first, then a part nested exactly at and just beyond the limit
+	for _, maxd := range []int64{1, 2, 3, 5} {
+		for k := 0; k <= 3; k++ {
+			for over := 0; over <= 3; over++ {
+				depth := int(maxd) - 1 + over // nesting inside the outer list
+				if depth < 0 {
+					continue
+				}
+				pre := strings.Repeat(`{"/":"bafkqaaa"},{"/":{"bytes":"AAEC"}},`, k)
+				for _, inner := range []string{"1", `{"a":1}`, `{"/":"bafkqaaa"}`} {
+					doc := "[" + pre + strings.Repeat("[", depth) + inner + strings.Repeat("]", depth) + "]"
+					for _, o := range []jsonOpts{{links: true, bytes: true, depth: maxd}, {links: false, bytes: false, depth: maxd}} {
+						emitDec(next("q"), "dagjson", "basic", o.String(), []byte(doc))
+					}
+				}
+				// the dag-cbor twin: tagged links first, then nesting
+				var cb []byte
+				cb = append(cb, 0x80|byte(1+2*k))
+				for i := 0; i < 2*k; i++ {
+					cb = append(cb, 0xd8, 0x2a, 0x45, 0x00, 0x01, 0x55, 0x00, 0x00)
+				}
+				for i := 0; i < depth; i++ {
+					cb = append(cb, 0x81)
+				}
+				cb = append(cb, 0x01)
+				emitDec(next("q"), "dagcbor", "basic", cborOpts{strict: true, links: true, depth: maxd}.String(), cb)
+			}
+		}
+	}
 	// --- paths
 	for _, s := range []string{"", "/", "//", "a", "a/b", "/a/b/", "a//b", "0/1/2", "é/€", "\xff/\xfe", "a/\x00/b", "-", "..", "./..", strings.Repeat("/", 1000), strings.Repeat("a/", 5000)} {
 		emitPath(next("p"), s)
